@@ -35,7 +35,7 @@ MAIN = [dict(fam=f, ne=ne, avoid=True, width=None, **cg) for f in ms.FAMS for ne
 N4 = [dict(fam=f, ne=True, avoid=True, width=None, max_dist=1.5, min_prob_norm=0.3) for f in ms.FAMS] + \
      [dict(fam="D", ne=True, avoid=True, width=None, max_dist=1.0), dict(fam="S", ne=False, avoid=False, width=None, max_dist=2.5, max_dist_init=1.1)]
 UNIT = 40.0
-ANCHORS = [(50.86, 4.7), (-33.3, -70.1), (0.0, 0.0)]
+ANCHORS = [(50.86, 4.7), (-33.3, -70.1), (0.0, 0.0), (59.9, 10.0)]
 LL = [dict(fam=f, ne=ne, avoid=True, width=None, **cg) for f in ms.FAMS for ne in (False, True)
       for cg in (dict(max_dist=60.0), dict(max_dist=100.0, max_dist_init=44.0, min_prob_norm=0.3), dict(min_prob_norm=0.6, max_dist=40.0))]
 
@@ -57,11 +57,15 @@ def cases(tier):
         c["tier"] = tier
         c["metric"] = "planar"
         yield c
-    for ai in range(len(ANCHORS)):
+    for ai in range(3):
         for gs in ms.graph_slice("n3"):
             if tier == "quick" and gs[1] == 3 and al.nedges(gs[2]) > 3:
                 continue
             yield {"kind": "ll", "gs": list(gs), "anchor": ai, "T": 2 if tier == "quick" else 3, "tier": tier, "metric": "latlon"}
+    # kilometre-scale edges far north (20 km per unit at 59.9N): the projection point must lie on the great-circle edge
+    for gs in ms.graph_slice("n3"):
+        if gs[0] == "GENERIC" and al.nedges(gs[2]) <= (3 if tier == "quick" else 6):
+            yield {"kind": "ll", "gs": list(gs), "anchor": 3, "T": 2, "tier": tier, "metric": "latlon-20km", "unit": 20000.0}
     # the same matcher object reused for another trace after a widening / an extension: the cut-offs (in particular the
     # initial radius around the NEW first observation) must hold for the new match as well
     for hist in ([["M", 9], ["W", 2], ["N"]], [["M", 2], ["X", 9], ["N"]], [["M", 9], ["N"]]):
@@ -79,10 +83,10 @@ def cases(tier):
             yield {"kind": "scaled", "gs": list(gs), "k": k, "T": 2 if tier == "quick" else 3, "tier": tier, "metric": f"planar x 2^{k}"}
 
 
-def to_ll(anchor, p):
+def to_ll(anchor, p, unit=None):
     if p[0] == 0 and p[1] == 0:
         return anchor
-    return rg.sph_dest(anchor, math.degrees(math.atan2(p[1], p[0])), math.hypot(p[0], p[1]) * UNIT)
+    return rg.sph_dest(anchor, math.degrees(math.atan2(p[1], p[0])), math.hypot(p[0], p[1]) * (unit or UNIT))
 
 
 def judge(m, r, graph, trace, c, unique, ctx, latlon=False):
@@ -151,15 +155,19 @@ def run_case(case):
     anchor = ANCHORS[case["anchor"]]
     pos = case["gs"][0]
     g0 = ms.build_graph(tuple(case["gs"]))
-    graph = {k: (to_ll(anchor, v[0]), list(v[1])) for k, v in g0.items()}
+    unit = case.get("unit")
+    graph = {k: (to_ll(anchor, v[0], unit), list(v[1])) for k, v in g0.items()}
     outs = set()
     mp = maps.inmem(graph, use_latlon=True)
     if "trace" in case:
         traces = [[tuple(p) for p in case["trace"]]]
         cfgs = [case["cfg"]]
     else:
-        traces = [[to_ll(anchor, p) for p in t] for t in ps.trace_set(pos, case["T"], n_obs=4)]
+        traces = [[to_ll(anchor, p, unit) for p in t] for t in ps.trace_set(pos, case["T"], n_obs=4)]
         cfgs = LL
+        if unit:
+            k_ = unit / UNIT
+            cfgs = [dict(c, **{key: c[key] * k_ for key in ("max_dist", "max_dist_init") if c.get(key)}, obs_noise=UNIT * k_) for c in LL if not c["ne"]]
     for trace in traces:
         for c in cfgs:
             m = ms.make_matcher(mp, c)
@@ -168,7 +176,9 @@ def run_case(case):
             except Exception as exc:  # noqa
                 r = exc
             res["n"] += 1
-            mini = {"kind": "ll", "gs": case["gs"], "anchor": case["anchor"], "trace": trace, "cfg": c, "metric": "latlon"}
+            mini = {"kind": "ll", "gs": case["gs"], "anchor": case["anchor"], "trace": trace, "cfg": c, "metric": case.get("metric", "latlon")}
+            if unit:
+                mini["unit"] = unit
             ps._absorb(res, outs, judge(m, r, graph, trace, c, False, {"expand": False}, latlon=True), m, r, mini,
                        f"lat-lon {al.describe_graph(graph)} trace {trace} cfg {c}")
     res["out"] = sorted(outs, key=repr)
